@@ -104,3 +104,24 @@ Example C06_ex_always_allowed_ctrl :
   (s_exempt (r_namespace r) (cf_ex_namespaces ex06_cfg), rs_allowed (fst o), ann "exempt" (fst o), snd o)
   = (true, true, Some "namespace", [MExempt]).
 Proof. vm_compute. reflexivity. Qed.
+
+(** ---- the request adapter (Model/Wire.v: api.RequestAttributes) ---- *)
+From PSA Require Import Model.Wire Proofs.WireFacts Proofs.AdmFactsA.
+(** exemptions are decided on the user NAME: two AdmissionRequests that differ only in the review uid, the
+    user's uid and groups, the subResource and requestResource fields get the same answer *)
+Theorem C06_wire_exempt_by_user_name_only : forall c ev w a b dl, same_view a b ->
+  validate c ev (attributes_of a dl) w = validate c ev (attributes_of b dl) w.
+Proof. exact validate_same_view. Qed.
+Print Assumptions C06_wire_exempt_by_user_name_only.
+Theorem C06_wire_user_is_username : forall a dl, r_user (attributes_of a dl) = ar_username a.
+Proof. exact wire_username_exact. Qed.
+Print Assumptions C06_wire_user_is_username.
+(** a request without a user name whose uid and groups spell an exempt user is not exempt: it is evaluated and denied *)
+Example C06_wire_uid_is_not_a_name :
+  let c := Config (Policy (LV Restricted Latest) (LV Privileged Latest) (LV Privileged Latest)) [] ["exempt-user"%string] [] 10 1000 in
+  let ev : evaluator := fun x _ => match lv_level x with Privileged => [] | _ => [CR false "no" ""] end in
+  let a := AdmissionRequest "u1" "" "pods" "" "" "pods" "" "p" "ns" "CREATE" "" "exempt-user" ["exempt-user"]
+                            (RawObject (OPod cex_pod)) RawAbsent in
+  let o := validate c ev (attributes_of a None) (World (Some []) "" None None 0) in
+  rs_allowed (fst o) = false /\ ann "exempt" (fst o) = None.
+Proof. vm_compute. split; reflexivity. Qed.
